@@ -49,14 +49,12 @@ func (e *Engine) binop(st *State, op token.Token, a, b Value, t types.Type, inst
 			return mk("fp.mul", FPSort, x, y)
 		case token.QUO:
 			return mk("fp.div", FPSort, x, y)
-		case token.LSS:
-			return mk("fp.lt", BoolSort, x, y)
-		case token.LEQ:
-			return mk("fp.leq", BoolSort, x, y)
-		case token.GTR:
-			return mk("fp.gt", BoolSort, x, y)
-		case token.GEQ:
-			return mk("fp.geq", BoolSort, x, y)
+		case token.LSS, token.LEQ, token.GTR, token.GEQ:
+			name := map[token.Token]string{token.LSS: "fp.lt", token.LEQ: "fp.leq", token.GTR: "fp.gt", token.GEQ: "fp.geq"}[op]
+			if r := e.durCompare(name, x, y); r != nil {
+				return r
+			}
+			return mk(name, BoolSort, x, y)
 		}
 		e.unsupported_(st, "float op "+op.String())
 		return nil
